@@ -29,7 +29,27 @@ import (
 
 var protos = []string{"direct", "none", "socks5", "ss2022"}
 
-func init() {
+// ExpectProbes lists the "rare branch reached" counters a healthy quick tier hits; the
+// service-level C05 property can append them to its own list when it calls RunCodec.
+var ExpectProbes = expectProbes()
+
+// Rule, Real, Stub and Assumptions describe the codec half for the evidence file.
+const Rule = "codec half: one run = one codec situation (pair client->server, pair server->client, relay uplink A=>B, relay downlink B=>A) over protocols " +
+	"{direct, none, socks5, ss2022 with 0-3 identity headers and a padding policy per side}, MTUs per side from {1280,1492,1500,9000,65535}, " +
+	"IPv4/IPv4-mapped/IPv6 peer addresses, a target of every address kind, one payload length (dense at 0 and at the independently derived limit +-3), " +
+	"payloadStart = advertised headroom + {0..2000} or the relay layout of service.UDP*Relay; non-trivial = a round trip completed or an over-limit payload was refused; " +
+	"distinct = distinct (situation, protocols, MTUs, families, target kind, length class, headroom class) shape"
+
+var (
+	Real        = []string{"ss2022 (packet, udp, header, crypto)", "direct (packet, udp)", "zerocopy (headroom, MaxPacketSizeForAddr)", "socks5 (addr, packet)", "netio (MaxUDPPayloadSize, UDP client sessions)", "conn/addr"}
+	Stub        = []string{"relay buffer layout (mirrored from service/server.go and service/udp_*.go)", "SIP022 relay hops for identity chains of depth 2-3 (harness)", "DNS (simnet)", "crypto/rand, math/rand/v2 (tape)"}
+	Assumptions = []string{
+		"a relay never receives a datagram larger than its receive buffer (the kernel truncates; the service drops truncated datagrams)",
+		"the SOCKS5 client session is built as Socks5UDPClient.newSession builds it, without the TCP association",
+	}
+)
+
+func expectProbes() []string {
 	probes := []string{
 		"c05x.scen.pair-c2s", "c05x.scen.pair-s2c", "c05x.scen.relay-up", "c05x.scen.relay-down",
 		"c05x.len.zero", "c05x.len.at-max", "c05x.len.max+1", "c05x.len.max+2", "c05x.len.max-1",
@@ -50,24 +70,23 @@ func init() {
 			probes = append(probes, "c05x.relay.up."+p+"-"+q, "c05x.relay.down."+p+"-"+q)
 		}
 	}
+	return probes
+}
+
+// The temporary property C05X runs the codec half alone (`vcheck C05X`); the service-level C05
+// property calls RunCodec itself.
+func init() {
 	core.Register(&core.Prop{
 		ID:           "C05X",
 		Run:          RunCodec,
 		MaxSteps:     20000,
-		QuickRuns:    20000,
+		QuickRuns:    40000,
 		ThoroughSecs: 300,
-		Rule: "one run = one codec situation (pair client->server, pair server->client, relay uplink A=>B, relay downlink B=>A) over protocols " +
-			"{direct, none, socks5, ss2022 with 0-3 identity headers and a padding policy per side}, MTUs per side from {1280,1492,1500,9000,65535}, " +
-			"IPv4/IPv4-mapped/IPv6 peer addresses, a target of every address kind, one payload length (dense at 0 and at the independently derived limit +-3), " +
-			"payloadStart = advertised headroom + {0..2000}; non-trivial = a round trip completed or an over-limit payload was refused; " +
-			"distinct = distinct (situation, protocols, MTUs, families, target kind, length class, headroom class) shape",
-		Real: []string{"ss2022 (packet, udp, header, crypto)", "direct (packet, udp)", "zerocopy (headroom, MaxPacketSizeForAddr)", "socks5 (addr, packet)", "netio (MaxUDPPayloadSize, UDP client sessions)", "conn/addr"},
-		Stub: []string{"relay buffer layout (mirrored from service/server.go and service/udp_*.go)", "SIP022 relay hops for identity chains of depth 2-3 (harness)", "DNS (simnet)", "crypto/rand, math/rand/v2 (tape)"},
-		Assumptions: []string{
-			"a relay never receives a datagram larger than its receive buffer (the kernel truncates; the service drops truncated datagrams)",
-			"the SOCKS5 client session is built as Socks5UDPClient.newSession builds it, without the TCP association",
-		},
-		ExpectProbes: probes,
+		Rule:         Rule,
+		Real:         Real,
+		Stub:         Stub,
+		Assumptions:  Assumptions,
+		ExpectProbes: ExpectProbes,
 	})
 }
 
